@@ -43,6 +43,13 @@ impl<T: Read + Seek> E57Reader<T> {
         let mut reader = PagedReader::new(reader, header.page_size)
             .read_err("Failed creating paged CRC reader")?;
 
+        // The first header was read without checking the CRC of its page,
+        // so we read it again with CRC validation to detect a corrupted header.
+        reader
+            .seek_physical(0)
+            .read_err("Cannot seek to start of the file")?;
+        let header = Header::read(&mut reader)?;
+
         // Read and parse XML data
         let xml_raw = Self::extract_xml(
             &mut reader,
